@@ -24,6 +24,7 @@ func checkC08(r *Report, p *Program) {
 	// a revision's name is unique per parent: two parents never collide on Create (shared with C09)
 	r09_4(r, p)
 	r09_10(r, p)
+	objectMapContracts(r, p, "R08.4")
 }
 
 // ---- key domains ----
